@@ -622,7 +622,7 @@ Contract(
     "workload.resources.Resources.__add__",
     params={"self": T.Ref(RESOURCES), "other": T.Ref(RESOURCES)},
     ret=T.Ref(RESOURCES),
-    requires=lambda c: {"operands_wf": z3.And(c.arg("other") != 0, wf_resources(c.pre, c.arg("self")), wf_resources(c.pre, c.arg("other")))},
+    requires=lambda c: {"operand_given": c.arg("other") != 0},
     modifies=lambda c: {},
     loops={
         0: Loop(inv=_radd_inv, modifies=_radd_vec_mod("resource_vector")),
